@@ -251,10 +251,60 @@ static void stream_case(size_t mlen, size_t adlen)
     free(mA); free(mB); free(cA); free(cB); free(x); free(y); free(oa); free(ob);
 }
 
+
+/* ---- length-word truncation: associated data of 2^32+48 bytes (untouched zero pages), one AD bit flipped in every 16-bit / 32-bit
+ * "word" region of the length; every AEAD, combined + detached + verify-only (m=NULL); judged on a single tuple: non-zero return,
+ * length 0, canaries, and no 8-byte chunk of the plaintext present in the output buffer ---- */
+#include <sys/mman.h>
+#define BIGAD ((size_t) 4294967296ULL + 48)
+#define BIGML 33
+static const size_t BIGPOS[6] = { 5, 65536 + 5, 2147483648ULL + 5, 4294967296ULL - 7, 4294967296ULL + 20, BIGAD - 1 };
+static const int BIGCONS_T[6] = { 3, 1, 0, 2, 4, 5 }, BIGCONS_Q[2] = { 3, 1 };   /* indices into CONS: quick = AES-256-GCM + ChaCha20-Poly1305-IETF */
+static unsigned long long n_bigskip;
+static void big_item(long it)
+{
+    static unsigned char *ad; static int cached = -1; static unsigned char c[BIGML + 16], tag[32];
+    const cons *C = &CONS[thorough ? BIGCONS_T[it / 7] : BIGCONS_Q[it / 7]]; int pi = (int) (it % 7) - 1, r, f, x; size_t pos, T = C->tlen, i;
+    unsigned char kbuf[32], nonce[32], m[BIGML], comb[BIGML + 64], out[BIGML + 48]; keyctx kc; ull ml; char key[200]; const char *why = NULL;
+    if (sizeof(size_t) < 8 || !C->avail() || (strstr(C->name, "aegis") && !sodium_runtime_has_aesni())) { n_bigskip++; return; }   /* software AES: minutes per call */
+    if (ad == NULL) { ad = mmap(NULL, BIGAD, PROT_READ | PROT_WRITE, MAP_PRIVATE | MAP_ANONYMOUS | MAP_NORESERVE, -1, 0);
+        if (ad == MAP_FAILED) { ad = NULL; n_bigskip++; printf("INFO big-ad mapping of %zu bytes refused by the system: family skipped\n", BIGAD); return; }
+#ifdef MADV_HUGEPAGE
+        madvise(ad, BIGAD, MADV_HUGEPAGE);
+#endif
+    }
+    cons_keys(C, &kc, kbuf, PAT_R1, 0); vf_pat(nonce, C->nlen, PAT_C, 351); vf_pat(m, BIGML, PAT_R2, 352);
+    snprintf(vf_ctx, sizeof vf_ctx, "%s/big-ad/pos=%d", C->name, pi);
+    if (cached != (int) (C - CONS)) { n_eval++; if (C->encd(c, tag, m, BIGML, ad, BIGAD, nonce, &kc) != 0) { n_bigskip++; return; } cached = (int) (C - CONS); }
+    if (pi < 0) {         /* the untouched tuple is accepted (otherwise the rejections are vacuous) */
+        n_eval++; n_nontriv++; memset(out, 0xA5, sizeof out); r = C->decd(out + 16, c, BIGML, tag, ad, BIGAD, nonce, &kc);
+        if (r != 0 || memcmp(out + 16, m, BIGML)) { snprintf(key, sizeof key, "%s/valid-rejected/mlen=%d/adlen=2^32+48", C->name, BIGML); vf_fail(key, "valid tuple with 2^32+48 bytes of associated data not accepted"); }
+        return;
+    }
+    pos = BIGPOS[pi];
+    if (pi == 0) VF_SAMPLE_CASE(5, "%s mlen=%d adlen=2^32+48 (zero pages): AD bit flipped at byte %zu -> combined, detached and verify-only decrypt must fail and release nothing", C->name, BIGML, pos);
+    memcpy(comb, c, BIGML); memcpy(comb + BIGML, tag, T);
+    ad[pos] ^= 0x10;
+    for (f = 0; f < 3 && !why; f++) {
+        if (!thorough && C->avail != gcm_avail && f != pi % 3) continue;      /* quick: the slower constructions take one call form per position */
+        if (f == 2 && !C->null_m_verify) break;
+        n_eval++; n_nontriv++; memset(out, 0xA5, sizeof out); ml = 4242;
+        if (f == 0) { r = C->dec(out + 16, &ml, comb, BIGML + T, ad, BIGAD, nonce, &kc); if (r == 0) why = "combined decrypt accepted a forgery"; else if (ml != 0) why = "combined decrypt failed but reported a non-zero message length"; }
+        else if (f == 1) { r = C->decd(out + 16, c, BIGML, tag, ad, BIGAD, nonce, &kc); if (r == 0) why = "detached decrypt accepted a forgery"; }
+        else { r = C->decd(NULL, c, BIGML, tag, ad, BIGAD, nonce, &kc); if (r == 0) why = "verify-only (m=NULL) accepted a forgery"; }
+        for (i = 0; i < sizeof out && !why; i++) if ((i < 16 || i >= 16 + BIGML) && out[i] != 0xA5) why = "wrote outside the message buffer on failure";
+        for (x = 0; x + 8 <= BIGML && !why; x += 8) if (memcmp(out + 16 + x, m + x, 8) == 0) why = "plaintext released by a rejected call";
+    }
+    ad[pos] ^= 0x10;
+    if (why) { snprintf(key, sizeof key, "%s/big-ad-bit@%zu/mlen=%d/adlen=2^32+48", C->name, pos, BIGML); vf_fail(key, "%s (associated data of 2^32+48 bytes, bit 4 of byte %zu flipped)", why, pos); }
+}
+
 static size_t LENS[320]; static int nlens;
 static void do_item(long it)
 {
-    size_t mlen = LENS[it / 5], adlen = ADQ[it % 5]; int ci;
+    size_t mlen, adlen; int ci;
+    if (it >= nlens * 5L) { big_item(it - nlens * 5L); return; }
+    mlen = LENS[it / 5]; adlen = ADQ[it % 5];
     if (adlen == 225 && mlen != 0 && mlen != 33) return;
     for (ci = 0; ci < NCONS; ci++) { if (!CONS[ci].avail()) continue; if (!CONS[ci].has_ad && adlen) continue; cons_case(&CONS[ci], mlen, adlen); }
     stream_case(mlen, adlen);
@@ -268,7 +318,7 @@ static void do_item(long it)
         sign_case(mlen);
     }
 }
-static void fin(void) { vf_stat("evaluations", n_eval); vf_stat("nontrivial", n_nontriv); vf_stat("spec_equivalent_skipped", n_equiv); n_eval = n_nontriv = n_equiv = 0; }
+static void fin(void) { vf_stat("evaluations", n_eval); vf_stat("nontrivial", n_nontriv); vf_stat("spec_equivalent_skipped", n_equiv); vf_stat("big_ad_skipped", n_bigskip); n_eval = n_nontriv = n_equiv = n_bigskip = 0; }
 
 int main(void)
 {
@@ -279,7 +329,7 @@ int main(void)
     if (sodium_init() < 0) return 2;
     printf("INFO features avx2=%d ssse3=%d sse2=%d aesni=%d gcm=%d\n", sodium_runtime_has_avx2(), sodium_runtime_has_ssse3(), sodium_runtime_has_sse2(), sodium_runtime_has_aesni(), crypto_aead_aes256gcm_is_available());
     if (thorough) for (i = 0; i <= 300; i++) LENS[nlens++] = i; else for (i = 0; i < 17; i++) LENS[nlens++] = MLQ[i];
-    vf_parallel(16, 0, nlens * 5L, do_item, fin);
+    vf_parallel(16, 0, nlens * 5L + 7L * (thorough ? 6 : 2), do_item, fin);   /* + (construction, position) items of the 2^32+48-byte AD family */
     vf_sample("aead_aegis128l mlen=33 adlen=0: tag bit 200 flipped -> every decrypt form must fail, *mlen_p = 0, and the 33-byte output buffer must be identical for two different (key, plaintext) tuples");
     vf_sample("secretbox_xsalsa20poly1305 combined input truncated to 15 bytes (< MACBYTES) -> rejected");
     vf_sample("box_curve25519xsalsa20poly1305 sender public key bit 255 flipped -> skipped, X25519 ignores it by specification (counted in spec_equivalent_skipped)");
